@@ -335,6 +335,45 @@ fn second_matches(sec: f64, s: u32, us: u32) {
     assert!(sec == (s as u64 * 1_000_000 + us as u64) as f64 / 1_000_000.0);
 }
 
+/// the fractional-second accessor on a grid: ANY whole-minute part (so any magnitude up to the range limit, either sign),
+/// every whole second 0..=59, five sub-second parts.  second() must be the quotient of the EXACT sub-minute count:
+/// a conversion to f64 before the remainder loses the low digits above 2^53 us and is refuted here.
+#[kani::proof]
+fn second_accessor_interval_dt_grid_bounded() {
+    let m: i64 = kani::any();
+    kani::assume(m >= -144_000_000_000 && m <= 144_000_000_000);      // minutes: |m| * 6*10^7 <= 8.64*10^18
+    let k: i64 = kani::any();
+    kani::assume(k >= 0 && k <= 59);
+    let sel: u8 = kani::any();
+    let us: i64 = match sel % 5 { 0 => 0, 1 => 1, 2 => 499_999, 3 => 500_000, _ => 999_999 };
+    let sub = k * 1_000_000 + us;
+    let neg: bool = kani::any();
+    let total = m.abs() * 60_000_000 + sub;
+    kani::assume(total <= 8_640_000_000_000_000_000);
+    let v = IntervalDT::try_from_usecs(if neg { -total } else { total }).unwrap();
+    let q = v.second().unwrap();
+    let want = sub as f64 / 1_000_000.0;
+    assert!(if neg { q == -want } else { q == want });
+}
+
+#[kani::proof]
+fn second_accessor_time_grid_bounded() {
+    let m: i64 = kani::any();
+    kani::assume(m >= 0 && m < 1440);
+    let k: i64 = kani::any();
+    kani::assume(k >= 0 && k <= 59);
+    let sel: u8 = kani::any();
+    let us: i64 = match sel % 5 { 0 => 0, 1 => 1, 2 => 499_999, 3 => 500_000, _ => 999_999 };
+    let sub = k * 1_000_000 + us;
+    let t = Time::try_from_usecs(m * 60_000_000 + sub).unwrap();
+    assert!(t.second().unwrap() == sub as f64 / 1_000_000.0);
+    // a timestamp reports the second of its time of day (also before 1970)
+    let d: i64 = kani::any();
+    kani::assume(d >= -719_162 && d <= 2_932_896);
+    let ts = Timestamp::try_from_usecs(d * 86_400_000_000 + m * 60_000_000 + sub).unwrap();
+    assert!(ts.second().unwrap() == sub as f64 / 1_000_000.0);
+}
+
 #[kani::proof]
 fn second_accessor_time() {
     let t = any_time();
@@ -441,6 +480,25 @@ fn ym_mul_f64_contract() {
     let v = any_ym();
     let k: f64 = kani::any();
     classify_ym(v.months() as f64 * k, v.mul_f64(k));
+}
+
+/// zero dividend, EVERY double divisor: DivideByZero exactly for +0.0 / -0.0, InvalidNumber for NaN, else exactly zero
+/// (a divisor is "zero" only when it compares equal to 0.0 - subnormals and tiny normals are ordinary divisors)
+#[kani::proof]
+fn div_f64_zero_dividend() {
+    let k: f64 = kani::any();
+    let r = IntervalDT::ZERO.div_f64(k);
+    let ry = IntervalYM::ZERO.div_f64(k);
+    let rt = Time::ZERO.div_f64(k);
+    if k == 0.0 {
+        assert!(r == Err(Error::DivideByZero) && ry == Err(Error::DivideByZero) && rt == Err(Error::DivideByZero));
+    } else if k.is_nan() {
+        assert!(r == Err(Error::InvalidNumber) && ry == Err(Error::InvalidNumber) && rt == Err(Error::InvalidNumber));
+    } else {
+        assert!(r.is_ok() && r.unwrap().usecs() == 0);
+        assert!(ry.is_ok() && ry.unwrap().months() == 0);
+        assert!(rt.is_ok() && rt.unwrap().usecs() == 0);
+    }
 }
 
 #[kani::proof]
